@@ -234,6 +234,17 @@ func shapeScripts(seed int64) []Driver {
 			}
 		}
 	}
+	// grpc-timeout values at and around the representable range (hours): the handler's deadline is the
+	// encoded duration, saturated - never a short or past one
+	for _, mode := range []string{"fwd", "rev"} {
+		for _, v := range []string{"99999999H", "2562048H", "2562047H", "2500000H", "2100000H", "153722867M", "99999999M"} {
+			l := []string{"open t=0 md=who=s peer=p0", "ds t=0",
+				"rawc t=0 id=1 kind=new method=%2Fv.S%2FBD0 rev=1 win=65536 md=grpc-timeout=" + v, "dc t=0",
+				"rawc t=0 id=1 kind=msg size=5 len=5", "rawc t=0 id=1 kind=half", "dc t=0", "dc t=0",
+				"hrecv r=0", "hrecv r=0", "hctx r=0", "hsend r=0 size=20", "hret r=0 code=0", "ds t=0", "ds t=0", "ds t=0", "ds t=0"}
+			add(Config{Mode: mode, RawClient: true}, l)
+		}
+	}
 	// a reverse-tunnel server that has been stopped still polices stream ids while the peer stays
 	// connected: an id that is not greater than all it has seen ends the tunnel with an error, and
 	// Serve reports it (raw tunnel client)
